@@ -86,6 +86,49 @@ def analyse(facts, fpath, all_params=False, interest=None):
         w0[("mod", l)] = "no"        # has the in/out operand been modified on this path?
     init = {"d": d0, "w": w0, "c": E}
 
+    # mutable views: a `&mut` binding obtained from `X.iter_mut()` / `chunks_mut` / `split_at_mut` / `&mut X[..]` writes X
+    MUTVIEW = ("iter_mut", "chunks_mut", "chunks_exact_mut", "split_at_mut", "as_mut_slice", "as_mut", "last_mut",
+               "first_mut", "get_mut", "split_first_mut", "split_last_mut")
+    alias = {}
+
+    def view_roots(e):
+        out = set()
+        for x in walk(e):
+            if x.get("k") == "MCall" and x.get("name") in MUTVIEW:
+                rl = root_local(x["recv"])
+                if rl:
+                    out.add(rl[0])
+            if x.get("k") == "Ref" and x.get("mut"):
+                rl = root_local(x["e"])
+                if rl:
+                    out.add(rl[0])
+        return out
+
+    for x in walk(body):
+        src = None
+        if x.get("k") == "For":
+            src = x["iter"]
+        elif x.get("k") == "Let" and "init" in x:
+            src = x["init"]
+        if src is None:
+            continue
+        binds = [q for q in walk(x["pat"]) if q.get("k") == "PBind" and facts.ty(q).startswith("&mut")]
+        if not binds:
+            continue
+        roots = view_roots(src)
+        # a view of a view: `for (x, y) in left.iter_mut().zip(right.iter_mut())` with left/right themselves views
+        for q in binds:
+            alias.setdefault(q["lid"], set()).update(roots)
+    changed = True
+    while changed:
+        changed = False
+        for l, ts in alias.items():
+            for t in list(ts):
+                for u in alias.get(t, ()):
+                    if u not in ts and u != l:
+                        ts.add(u)
+                        changed = True
+
     def join(a, b):
         d = {}
         for l in set(a["d"]) | set(b["d"]):
@@ -194,6 +237,9 @@ def analyse(facts, fpath, all_params=False, interest=None):
                 whole = strip(lhs).get("k") == "Path"
                 st = setd(st, rl[0], dd, cc | st["c"], weak=not whole)
                 st = setw(st, rl[0])
+                for t in alias.get(rl[0], ()):
+                    st = setd(st, t, dd, cc | st["c"], weak=True)
+                    st = setw(st, t)
             return st
         if k in ("Call", "MCall"):
             f = callee(n)
@@ -232,6 +278,9 @@ def analyse(facts, fpath, all_params=False, interest=None):
                 else:
                     st = setd(st, lid, frozenset(alld), frozenset(allc) | st["c"], weak=True)
                 st = setw(st, lid)
+                for t in alias.get(lid, ()):
+                    st = setd(st, t, frozenset(alld), frozenset(allc) | st["c"], weak=True)
+                    st = setw(st, t)
             return st
         if k == "Path" and n.get("res") == "local" and n["lid"] in out_lids:
             # bare read of an out-parameter in expression position is checked where it is consumed
